@@ -392,10 +392,23 @@ func c17CheckView(src gozxing.LuminanceSource, v *c17View, rng *fw.Rand) (string
 			}
 		}
 	}
-	mode := rng.Intn(4)
+	mode := rng.Intn(6)
 	var buf []byte
+	var arena []byte
 	for y := 0; y < v.h; y++ {
 		switch mode {
+		case 4: // recycled scratch buffer: shorter than the row, capacity beyond it, stale content behind
+			buf = make([]byte, v.w+rng.Intn(20))
+			for i := range buf {
+				buf[i] = 0x5A
+			}
+			buf = buf[:rng.Intn(v.w)]
+		case 5: // a prefix of a larger arena: what lies behind the prefix belongs to somebody else
+			arena = make([]byte, 2*v.w+8)
+			for i := range arena {
+				arena[i] = byte(0xC0 + i%7)
+			}
+			buf = arena[:rng.Intn(v.w)]
 		case 0:
 			buf = nil
 		case 1: // too small: must be ignored
@@ -417,6 +430,14 @@ func c17CheckView(src gozxing.LuminanceSource, v *c17View, rng *fw.Rand) (string
 		for x := 0; x < v.w; x++ {
 			if row[x] != v.at(x, y) {
 				return "GetRow-pixel", fmt.Sprintf("GetRow(%d)[%d]=%d, model %d (GetMatrix has %d)", y, x, row[x], v.at(x, y), m[y*v.w+x])
+			}
+		}
+		if mode == 5 {
+			// a buffer that is too small is ignored: nothing may be written through it
+			for i := range arena {
+				if arena[i] != byte(0xC0+i%7) {
+					return "GetRow-wrote-behind-short-buffer", fmt.Sprintf("GetRow(%d, buffer of length %d < width %d) changed byte %d of the array behind the buffer", y, len(buf), v.w, i)
+				}
 			}
 		}
 		buf = row
